@@ -79,6 +79,9 @@ impl Default for WIds {
 #[derive(Clone, Debug, Serialize, Deserialize)]
 pub enum Op {
     NewSetup { out: Id, tape: Tape, hsm: bool },
+    /// `ServerSetup::new_with_key` on a fresh tape with the (externally held)
+    /// static key of another setup
+    NewSetupWithKey { out: Id, tape: Tape, sk_from: Id },
     /// seed and fake key of `seed_from`, static key of `key_from` (public API:
     /// `ServerSetup::deserialize` of the spliced bytes)
     SpliceSetup { out: Id, seed_from: Id, key_from: Id },
@@ -109,6 +112,7 @@ impl Op {
     pub fn name(&self) -> &'static str {
         match self {
             Op::NewSetup { .. } => "NewSetup",
+            Op::NewSetupWithKey { .. } => "NewSetupWithKey",
             Op::SpliceSetup { .. } => "SpliceSetup",
             Op::RegStart { .. } => "RegStart",
             Op::RegRespond { .. } => "RegRespond",
@@ -124,6 +128,7 @@ impl Op {
     pub fn outs(&self) -> Vec<Id> {
         match self {
             Op::NewSetup { out, .. }
+            | Op::NewSetupWithKey { out, .. }
             | Op::SpliceSetup { out, .. }
             | Op::RegRespond { out, .. }
             | Op::RegFinish { out, .. }
@@ -167,6 +172,7 @@ impl Op {
                 v.push(*key_from)
             }
             Op::Reload { id, .. } => v.push(*id),
+            Op::NewSetupWithKey { sk_from, .. } => v.push(*sk_from),
             Op::RegFinish { ids, .. } | Op::LoginRespond { ids, .. } | Op::LoginFinish { ids, .. } => {
                 for s in [&ids.client, &ids.server] {
                     if let IdSpec::ClientPkOf(i) | IdSpec::ServerPkOf(i) = s {
@@ -180,6 +186,24 @@ impl Op {
     }
 }
 
+/// A seam failure planned for one op: the n-th call (1-based, counted within
+/// that op) of the key-stretching function / the external key fails.
+#[derive(Clone, Debug, Serialize, Deserialize, PartialEq, Eq)]
+pub enum Fault {
+    KsfFailAt { op: usize, call: usize },
+    HsmFailAt { op: usize, call: usize },
+}
+
+#[derive(Clone, Debug, Default, Serialize, Deserialize, PartialEq, Eq)]
+pub struct Knobs {
+    /// the external key serializes to an opaque handle, not the raw scalar
+    #[serde(default)]
+    pub hsm_handle: bool,
+    /// the generator's try_fill_bytes reports an error (fill_bytes still works)
+    #[serde(default)]
+    pub rng_try_fill_fails: bool,
+}
+
 #[derive(Clone, Debug, Serialize, Deserialize)]
 pub struct World {
     pub suite: String,
@@ -187,6 +211,10 @@ pub struct World {
     pub index: u64,
     pub note: String,
     pub ops: Vec<Op>,
+    #[serde(default)]
+    pub faults: Vec<Fault>,
+    #[serde(default)]
+    pub knobs: Knobs,
 }
 
 // ------------------------------------------------------------------ Model A metadata
@@ -289,6 +317,15 @@ pub struct Event {
     pub predict: String,
     pub draws: Vec<Hex>,
     pub skipped: bool,
+    /// calls the key-stretching seam saw during this op: (tag, input)
+    #[serde(default)]
+    pub ksf_calls: Vec<(u32, Hex)>,
+    /// calls the external-key seam saw during this op
+    #[serde(default)]
+    pub hsm_calls: Vec<String>,
+    /// an injected seam failure fired during this op
+    #[serde(default)]
+    pub fault_fired: bool,
 }
 
 #[derive(Clone, Debug, Default, Serialize)]
@@ -402,6 +439,11 @@ impl<'a> Exec<'a> {
     }
 
     fn tape(&mut self, t: &Tape) -> SimRng {
+        let mut r = self.tape_inner(t);
+        r.try_fill_fails = self.w.knobs.rng_try_fill_fails;
+        r
+    }
+    fn tape_inner(&mut self, t: &Tape) -> SimRng {
         match t {
             Tape::Own(l) => SimRng::new(self.w.seed, &format!("tape/{}/{}", self.w.index, l)),
             Tape::Shared(n) => self.shared.remove(n).unwrap_or_else(|| {
@@ -622,11 +664,61 @@ impl<'a> Exec<'a> {
     }
 
     pub fn run(mut self) -> RunResult {
+        use crate::seams::*;
         let ops = self.w.ops.clone();
+        hsm_set_handle_mode(self.w.knobs.hsm_handle);
         for (i, op) in ops.iter().enumerate() {
             Stats::bump(&mut self.stats.ops, op.name());
+            let kf = self.w.faults.iter().find_map(|f| match f {
+                Fault::KsfFailAt { op, call } if *op == i => Some(*call),
+                _ => None,
+            });
+            let hf = self.w.faults.iter().find_map(|f| match f {
+                Fault::HsmFailAt { op, call } if *op == i => Some(*call),
+                _ => None,
+            });
+            ksf_reset(kf);
+            hsm_reset(hf);
+            let (k0, h0) = (ksf_faults_fired(), hsm_faults_fired());
+            let nviol = self.viol.len();
             self.step(i, op);
+            let klog = ksf_take_log();
+            let hlog = hsm_take_log();
+            let fired_k = ksf_faults_fired() > k0;
+            let fired_h = hsm_faults_fired() > h0;
+            ksf_reset(None);
+            hsm_reset(None);
+            if let Some(e) = self.events.last_mut() {
+                if e.op == i {
+                    e.ksf_calls = klog.iter().map(|c| (c.tag, Hex(c.input.clone()))).collect();
+                    e.hsm_calls = hlog.iter().map(|c| format!("{c:?}")).collect();
+                    e.fault_fired = fired_k || fired_h;
+                }
+            }
+            if fired_k || fired_h {
+                Stats::bump(&mut self.stats.faults, if fired_k { "ksf_call_failed" } else { "hsm_call_failed" });
+                // the model knew nothing of the fault: drop its verdicts for this op
+                let keep: Vec<Violation> = self.viol.drain(nviol..).filter(|v| v.clause == "panic").collect();
+                self.viol.extend(keep);
+                let want = if fired_k { "KsfError".to_string() } else { format!("Custom(HsmErr({}))", hf.unwrap_or(0)) };
+                let res = self.events.last().filter(|e| e.op == i).map(|e| e.res.clone());
+                match res {
+                    Some(Ok(_)) => self.violate("seam_error_swallowed", i, format!("{}: an injected {} failure did not surface: the operation returned Ok", op.name(), if fired_k { "KSF" } else { "external-key" })),
+                    Some(Err(f)) => {
+                        let ok = match &f.kind {
+                            ErrKind::Library(n) => n == &want,
+                            ErrKind::Serde(m) => fired_h && m.contains("HsmErr"),
+                            _ => false,
+                        };
+                        if !ok && !f.is_panic() {
+                            self.violate("seam_error_wrong_kind", i, format!("{}: injected failure must surface as LibraryError({want}), got {}", op.name(), f.short()));
+                        }
+                    }
+                    None => {}
+                }
+            }
         }
+        hsm_set_handle_mode(false);
         self.finish()
     }
 
@@ -639,6 +731,9 @@ impl<'a> Exec<'a> {
             predict: "-".into(),
             draws: vec![],
             skipped: true,
+            ksf_calls: vec![],
+            hsm_calls: vec![],
+            fault_fired: false,
         });
     }
 
@@ -659,7 +754,12 @@ impl<'a> Exec<'a> {
                         Some(p) => match self.s.server_setup_new(p) {
                             Ok(direct) => {
                                 let nat = self.s.encode(&direct, Codec::Native).unwrap();
-                                let sk = nat[lens.nh..lens.nh + lens.nsk].to_vec();
+                                let mut sk = nat[lens.nh..lens.nh + lens.nsk].to_vec();
+                                if self.w.knobs.hsm_handle {
+                                    for (i, x) in sk.iter_mut().enumerate() {
+                                        *x ^= 0x5a ^ (i as u8).wrapping_mul(29);
+                                    }
+                                }
                                 let mut skip = vec![0u8; lens.nsk];
                                 rand::RngCore::fill_bytes(&mut rng, &mut skip);
                                 self.s.server_setup_new_hsm(&mut rng, &sk)
@@ -683,7 +783,40 @@ impl<'a> Exec<'a> {
                     }
                     Err(f) => Err(f),
                 };
-                self.events.push(Event { op: i, name: op.name(), res: ev, predict: "accept".into(), draws, skipped: false });
+                self.events.push(Event { op: i, name: op.name(), res: ev, predict: "accept".into(), draws, skipped: false, ksf_calls: vec![], hsm_calls: vec![], fault_fired: false });
+            }
+            Op::NewSetupWithKey { out, tape, sk_from } => {
+                let Some(src) = self.slots.get(sk_from) else { return self.skip(i, op) };
+                // the raw scalar of the source setup (direct setups store it in the clear)
+                let sk = src.native[lens.nh..lens.nh + lens.nsk].to_vec();
+                let src_hsm = src.item.kind == Kind::SetupHsm;
+                let mut rng = self.tape(tape);
+                let res = if src_hsm && self.w.knobs.hsm_handle {
+                    // handle bytes are what SimHsm::deserialize expects in handle mode
+                    self.s.server_setup_new_hsm(&mut rng, &sk)
+                } else {
+                    // translate raw scalar to the external key's serialized form
+                    let mut h = sk.clone();
+                    if self.w.knobs.hsm_handle {
+                        for (i, x) in h.iter_mut().enumerate() {
+                            *x ^= 0x5a ^ (i as u8).wrapping_mul(29);
+                        }
+                    }
+                    self.s.server_setup_new_hsm(&mut rng, &h)
+                };
+                let draws = self.tape_back(tape, rng);
+                self.check_predict(i, "NewSetupWithKey", &Predict::Accept, &res);
+                let ev = match res {
+                    Ok(item) => {
+                        let pk = self.s.setup_public_key(&item).unwrap_or_default();
+                        let nat = self.s.encode(&item, Codec::Native).unwrap();
+                        let seed = nat[..lens.nh].to_vec();
+                        let n = self.put(*out, item, Some(Meta::Setup { seed, pk: pk.clone() }));
+                        Ok(vec![("setup", Hex(n)), ("pk", Hex(pk))])
+                    }
+                    Err(f) => Err(f),
+                };
+                self.events.push(Event { op: i, name: op.name(), res: ev, predict: "accept".into(), draws, skipped: false, ksf_calls: vec![], hsm_calls: vec![], fault_fired: false });
             }
             Op::SpliceSetup { out, seed_from, key_from } => {
                 let (a, b) = match (self.slots.get(seed_from), self.slots.get(key_from)) {
@@ -706,7 +839,7 @@ impl<'a> Exec<'a> {
                     }
                     Err(f) => Err(f),
                 };
-                self.events.push(Event { op: i, name: op.name(), res: ev, predict: "accept".into(), draws: vec![], skipped: false });
+                self.events.push(Event { op: i, name: op.name(), res: ev, predict: "accept".into(), draws: vec![], skipped: false, ksf_calls: vec![], hsm_calls: vec![], fault_fired: false });
             }
             Op::RegStart { st, msg, tape, pw } => {
                 let mut rng = self.tape(tape);
@@ -727,7 +860,7 @@ impl<'a> Exec<'a> {
                     }
                     Err(f) => Err(f),
                 };
-                self.events.push(Event { op: i, name: op.name(), res: ev, predict: pname(&p).into(), draws, skipped: false });
+                self.events.push(Event { op: i, name: op.name(), res: ev, predict: pname(&p).into(), draws, skipped: false, ksf_calls: vec![], hsm_calls: vec![], fault_fired: false });
             }
             Op::RegRespond { out, setup, req, cred } => {
                 let (Some(su), Some(rq)) = (self.resolve(setup, Kind::Setup), self.resolve(req, Kind::RegReq)) else {
@@ -757,7 +890,7 @@ impl<'a> Exec<'a> {
                     }
                     Err(f) => Err(f),
                 };
-                self.events.push(Event { op: i, name: op.name(), res: ev, predict: pname(&p).into(), draws: vec![], skipped: false });
+                self.events.push(Event { op: i, name: op.name(), res: ev, predict: pname(&p).into(), draws: vec![], skipped: false, ksf_calls: vec![], hsm_calls: vec![], fault_fired: false });
             }
             Op::RegFinish { out, tape, st, pw, resp, ids, ksf } => {
                 let Some(ids) = self.ids(ids) else { return self.skip(i, op) };
@@ -819,7 +952,7 @@ impl<'a> Exec<'a> {
                     }
                     Err(f) => Err(f),
                 };
-                self.events.push(Event { op: i, name: op.name(), res: ev, predict: pname(&p).into(), draws, skipped: false });
+                self.events.push(Event { op: i, name: op.name(), res: ev, predict: pname(&p).into(), draws, skipped: false, ksf_calls: vec![], hsm_calls: vec![], fault_fired: false });
             }
             Op::RegStore { out, upload } => {
                 let Some(up) = self.resolve(upload, Kind::RegUpload) else { return self.skip(i, op) };
@@ -834,7 +967,7 @@ impl<'a> Exec<'a> {
                     }
                     Err(f) => Err(f),
                 };
-                self.events.push(Event { op: i, name: op.name(), res: ev, predict: pname(&p).into(), draws: vec![], skipped: false });
+                self.events.push(Event { op: i, name: op.name(), res: ev, predict: pname(&p).into(), draws: vec![], skipped: false, ksf_calls: vec![], hsm_calls: vec![], fault_fired: false });
             }
             Op::LoginStart { st, msg, tape, pw } => {
                 let mut rng = self.tape(tape);
@@ -855,7 +988,7 @@ impl<'a> Exec<'a> {
                     }
                     Err(f) => Err(f),
                 };
-                self.events.push(Event { op: i, name: op.name(), res: ev, predict: pname(&p).into(), draws, skipped: false });
+                self.events.push(Event { op: i, name: op.name(), res: ev, predict: pname(&p).into(), draws, skipped: false, ksf_calls: vec![], hsm_calls: vec![], fault_fired: false });
             }
             Op::LoginRespond { st, msg, tape, setup, record, req, cred, ctx, ids } => {
                 let Some(ids) = self.ids(ids) else { return self.skip(i, op) };
@@ -929,7 +1062,7 @@ impl<'a> Exec<'a> {
                     }
                     Err(f) => Err(f),
                 };
-                self.events.push(Event { op: i, name: op.name(), res: ev, predict: pname(&p).into(), draws, skipped: false });
+                self.events.push(Event { op: i, name: op.name(), res: ev, predict: pname(&p).into(), draws, skipped: false, ksf_calls: vec![], hsm_calls: vec![], fault_fired: false });
             }
             Op::LoginFinish { out, st, pw, resp, ctx, ids, ksf } => {
                 let Some(ids) = self.ids(ids) else { return self.skip(i, op) };
@@ -1006,7 +1139,7 @@ impl<'a> Exec<'a> {
                     }
                     Err(f) => Err(f),
                 };
-                self.events.push(Event { op: i, name: op.name(), res: ev, predict: pname(&p).into(), draws: vec![], skipped: false });
+                self.events.push(Event { op: i, name: op.name(), res: ev, predict: pname(&p).into(), draws: vec![], skipped: false, ksf_calls: vec![], hsm_calls: vec![], fault_fired: false });
             }
             Op::ServerFinish { st, fin } => {
                 let (Some(stt), Some(fi)) = (self.resolve(st, Kind::ServerLogin), self.resolve(fin, Kind::CredFin)) else {
@@ -1048,7 +1181,7 @@ impl<'a> Exec<'a> {
                     }
                     Err(f) => Err(f),
                 };
-                self.events.push(Event { op: i, name: op.name(), res: ev, predict: pname(&p).into(), draws: vec![], skipped: false });
+                self.events.push(Event { op: i, name: op.name(), res: ev, predict: pname(&p).into(), draws: vec![], skipped: false, ksf_calls: vec![], hsm_calls: vec![], fault_fired: false });
             }
             Op::Reload { id, codec } => {
                 let Some(slot) = self.slots.get(id) else { return self.skip(i, op) };
@@ -1062,7 +1195,7 @@ impl<'a> Exec<'a> {
                     },
                 );
                 if *codec == Codec::Mem {
-                    self.events.push(Event { op: i, name: op.name(), res: Ok(vec![]), predict: "-".into(), draws: vec![], skipped: false });
+                    self.events.push(Event { op: i, name: op.name(), res: Ok(vec![]), predict: "-".into(), draws: vec![], skipped: false, ksf_calls: vec![], hsm_calls: vec![], fault_fired: false });
                     return;
                 }
                 let kind = slot.item.kind;
@@ -1095,7 +1228,7 @@ impl<'a> Exec<'a> {
                         Err(f)
                     }
                 };
-                self.events.push(Event { op: i, name: op.name(), res: ev, predict: "accept".into(), draws: vec![], skipped: false });
+                self.events.push(Event { op: i, name: op.name(), res: ev, predict: "accept".into(), draws: vec![], skipped: false, ksf_calls: vec![], hsm_calls: vec![], fault_fired: false });
             }
         }
     }
